@@ -97,6 +97,8 @@ fn main() {
                 "C02" => props::c02::run(&ctx, &mut rep),
                 "C03" => props::c03::run(&ctx, &mut rep),
                 "C04" => props::c04::run(&ctx, &mut rep),
+                "C05" => props::c05::run(&ctx, &mut rep),
+                "C06" => props::c06::run(&ctx, &mut rep),
                 other => {
                     eprintln!("unknown property {other}");
                     std::process::exit(2);
